@@ -244,7 +244,10 @@ func runC16(c *eng.Ctx) {
 			role := res.At(i).Name()
 			for _, s := range p.Sites(nc, eng.StoreField(dchT+"."+role)) {
 				v := s.Instr.(*ssa.Store).Val
-				okR := eng.DependsOn(v, func(x ssa.Value) bool { e, ok := x.(*ssa.Extract); return ok && e.Tuple == ga.Instr.(ssa.Value) && e.Index == i })
+				okR := eng.DependsOn(v, func(x ssa.Value) bool {
+					e, ok := x.(*ssa.Extract)
+					return ok && e.Tuple == ga.Instr.(ssa.Value) && e.Index == i
+				})
 				c.Check(okR, "option-role:"+role, s.Instr, nc, "the channel's "+role+" bound is the accessor's result named "+role, "stores "+p.Desc(v))
 			}
 			for j, r := range eng.SuccessReturns(gf) {
